@@ -99,6 +99,47 @@ pub fn handle(op: &str, req: &Value) -> Option<Value> {
             };
             json!({"before": before, "after": snapshot(&node), "response": r, "second_candidate_granted": r2})
         },
+        "raft_vote_compacted" => {
+            // voter whose log was compacted: base entries snapshotted away, the witness's entries retained in memory
+            let pre = &req["pre"];
+            let terms: Vec<u64> = pre["log_terms"].as_array().into_iter().flatten().map(|x| x.as_u64().unwrap_or(1)).collect();
+            let base = pre["base"].as_u64().unwrap_or(2).clamp(2, 64);
+            let n = terms.len() as u64;
+            let mut all: Vec<LogEntry> = (1..=base).map(|i| LogEntry::new(terms.first().copied().unwrap_or(1), i, Block::default())).collect();
+            for (i, t) in terms.iter().enumerate() {
+                all.push(LogEntry::new(*t, base + 1 + i as u64, Block::default()));
+            }
+            let mut cfg = RaftConfig::default();
+            cfg.auto_heartbeat = false;
+            cfg.snapshot_trailing_logs = n as usize;
+            let id = format!("self{}", pre["node_id"]);
+            let t: Arc<MemoryTransport> = Arc::new(MemoryTransport::new(id.clone()));
+            let term0 = pre["term"].as_u64().unwrap_or(1).max(terms.last().copied().unwrap_or(1));
+            let voted = if pre["voted_for"].is_null() { None } else { Some(sid(&pre["voted_for"])) };
+            let node = RaftNode::with_state(id, vec!["p1".into(), "p2".into()], t, cfg, term0, voted, all);
+            let hb = AppendEntries { term: term0, leader_id: "setup-leader".into(), prev_log_index: base + n, prev_log_term: node.last_log_term(),
+                entries: vec![], leader_commit: base + n, block_embedding: None };
+            let _ = node.handle_message(&"setup-leader".to_string(), &Message::AppendEntries(hb));
+            let mut detail = json!({});
+            if let (Ok(()), Ok((meta, _))) = (node.finalize_to(base + n), node.create_snapshot()) {
+                detail["snapshot_index"] = json!(meta.last_included_index);
+                let _ = node.truncate_log(&meta);
+            }
+            let before = snapshot(&node);
+            let rv = &req["rv"];
+            // keep the witness's position of the candidate relative to the voter's last index when the base had to be clamped
+            let wb = pre["base"].as_u64().unwrap_or(1);
+            let lli = rv["last_log_index"].as_u64().unwrap_or(0);
+            let lli = if wb == base || lli <= n { lli } else if lli >= wb.saturating_add(n) { lli - wb + base } else { n + 1 };
+            let msg = RequestVote { term: rv["term"].as_u64().unwrap_or(0), candidate_id: sid(&rv["candidate"]), last_log_index: lli,
+                last_log_term: rv["last_log_term"].as_u64().unwrap_or(0), state_embedding: SparseVector::new(0) };
+            let resp = node.handle_message(&sid(&rv["candidate"]), &Message::RequestVote(msg));
+            let r = match resp {
+                Some(Message::RequestVoteResponse(RequestVoteResponse { term, vote_granted, .. })) => json!({"term": term, "vote_granted": vote_granted}),
+                _ => json!(null),
+            };
+            json!({"before": before, "after": snapshot(&node), "response": r, "candidate_last_log_index": lli, "detail": detail})
+        },
         "raft_leader_response" => {
             // leader = with_state + become_leader (match_index 0, next_index last+1 for every peer)
             let mut r2 = req.clone();
